@@ -218,9 +218,10 @@ def apply_tamper(content, tamper, rng, table):
                 f = "signature" if "signature" in s else "sig"
                 if rng.random() < 0.5:
                     # damaged into something that is not a hex string at all (blanked, overwritten, cut to an odd
-                    # length, white space around it): a value that verifies for nobody - the file must merely not count
+                    # length): a value that verifies for nobody - the file must merely not count. (Not white space around
+                    # the digits: hex decoding skips it, the value is the same bytes.)
                     v = s[f]
-                    s[f] = rng.choice(["", "zz" + v[2:], v[:-1], " " + v, v + "\n", "0x" + v, v[:len(v) // 2] + "--" + v[len(v) // 2:]])
+                    s[f] = rng.choice(["", "zz" + v[2:], v[:-1], "0x" + v, v[:len(v) // 2] + "--" + v[len(v) // 2:]])
                 else:
                     s[f] = mutate_scalar(s[f], rng, hex_case=False)
         return c
@@ -494,6 +495,18 @@ def surrogate_edit(content, rng):
     import base64
     c = copy.deepcopy(content)
     body = c["signed"] if "signed" in c else json.loads(base64.b64decode(c["payload"]))
+    lossy = [pth for pth in leaves(body) if isinstance(get_at(body, pth), str) and "?" in get_at(body, pth) and pth[-1] != "expires"]
+    if lossy and rng.random() < 0.6:
+        # a question mark replaced by a lone surrogate: a different string, which an encoder that *replaces* what it cannot
+        # encode maps to the same bytes ('?')
+        pth = rng.choice(lossy)
+        old = get_at(body, pth)
+        k = rng.choice([j for j, ch in enumerate(old) if ch == "?"])
+        new = old[:k] + "\udce9" + old[k + 1:]
+        set_at(body, pth, new)
+        if "signed" not in c:
+            c["payload"] = base64.b64encode(json.dumps(body, sort_keys=True).encode("ascii")).decode()
+        return c, {"path": list(pth), "old": old, "new_escaped": json.dumps(new), "kind": "replaced_by_question_mark"}
     cands = [pth for pth in leaves(body) if isinstance(get_at(body, pth), str) and any(ord(ch) > 127 and not 0xD800 <= ord(ch) <= 0xDFFF for ch in get_at(body, pth))]
     if not cands:
         return None
@@ -602,9 +615,11 @@ def edit_signature(content, rng):
             sigs[i]["sig"] = base64.b64encode(bytes(raw)).decode()
         else:
             # (not the letter case of the hex digits: the value of a signature is the bytes the digits stand for)
-            if rng.random() < 0.3:
+            if rng.random() < 0.3 and field == "sig":
+                # (not for gpg-shaped entries: there a value that is not hex is refused as ill-formed before any
+                #  checking, the model calls it a bad signature - neither counts it, the error classes differ)
                 v = sigs[i][field]
-                sigs[i][field] = rng.choice(["", "zz" + v[2:], v[:-1], " " + v, v + "\n", "0x" + v])
+                sigs[i][field] = rng.choice(["", "zz" + v[2:], v[:-1], "0x" + v])
             else:
                 sigs[i][field] = mutate_scalar(sigs[i][field], rng, hex_case=False)
     return c, {"sig_edit": kind, "index": i}
